@@ -521,7 +521,7 @@ func TestC07(t *testing.T) {
 	// above a base context pushed with an empty definition, which stands for the
 	// model's root; a runtime that saw a violation is never reused.
 	var shared *rt.Runtime
-	nMachine, nLua := rec.Pick(5000, 100000), rec.Pick(1500, 10000)
+	nMachine, nLua := rec.Pick(5000, 60000), rec.Pick(1500, 8000)
 	if !part("machine") {
 		nMachine = 1
 	}
